@@ -129,6 +129,7 @@ fn gen_len(rng: &mut Rng, cap: usize, tl: usize, fill: usize, min: usize) -> usi
     l.clamp(min, 5000)
 }
 
+
 impl Engine for E2 {
     type Case = LbCase;
     const NAME: &'static str = "linebuf";
@@ -210,7 +211,12 @@ impl Engine for E2 {
             }
             match prog.weighted(&w) {
                 0 => {
-                    let len = gen_len(&mut prog, capv, tl, fill, min);
+                    let mut len = gen_len(&mut prog, capv, tl, fill, min);
+                    // rarely, on the UDP route: a metric beyond the datagram limit (65 507): it must
+                    // be handed to the socket whole (the socket refuses it), never truncated or split
+                    if route == Route::Udp && !via_client && prog.chance(1, 150) {
+                        len = *prog.pick(&[65_507usize, 65_508, 66_000, 70_000]);
+                    }
                     let req = len + tl;
                     if req <= capv {
                         if fill + req > capv {
@@ -731,11 +737,15 @@ fn run_case(case: &LbCase, out: &mut Outcome, want_trace: bool) {
             return;
         }
     }
+    // a nominally fault-free case can still see a refused write: the stub socket refuses a
+    // datagram beyond its size limit (EMSGSIZE) by itself. Such a history is judged as a faulty one.
+    let any_refused = calls.iter().any(|c| c.attempts.iter().any(|a| !a.ok));
+    let judged_fault_free = case.mode == LbMode::FaultFree && !any_refused;
     match case.mode {
         LbMode::FaultFree | LbMode::Faulty => {
-            let mode = if case.mode == LbMode::FaultFree { Mode::FaultFree } else { Mode::Faulty };
+            let mode = if judged_fault_free { Mode::FaultFree } else { Mode::Faulty };
             check_history(&ModelCfg { cap, term: term.clone(), mode }, &calls, out);
-            if case.mode == LbMode::FaultFree && out.violations.is_empty() {
+            if judged_fault_free && out.violations.is_empty() {
                 check_greedy(cap, term.len(), &calls, out);
             }
         }
@@ -765,14 +775,14 @@ fn run_case(case: &LbCase, out: &mut Outcome, want_trace: bool) {
                 m.emitter = 1_000_000 + m.id as usize;
             }
         }
-        let cons: &[&str] = if case.mode == LbMode::FaultFree { &["C06"] } else { &["C07"] };
+        let cons: &[&str] = if judged_fault_free { &["C06"] } else { &["C07"] };
         check_stream(cap, &term, &ms, &writes, final_ok, cons, out);
         out.probe("stream_oracle_checked");
     }
     // under injected failures every clause is also C07's ("failures never cause ..."); the framing
     // clauses stay C05's ("every write ... no write contains a partial line") and the conservation
     // clauses stay C06's ("by the time a later flush returns Ok"), C19 is fault-free only
-    if case.mode != LbMode::FaultFree {
+    if !judged_fault_free {
         for v in out.violations.iter_mut() {
             if v.props.iter().any(|p| p == "C13") && v.clause.starts_with("net.") {
                 continue;
@@ -790,10 +800,10 @@ fn run_case(case: &LbCase, out: &mut Outcome, want_trace: bool) {
             if panicked {
                 props.push("C20".to_string());
             }
-            if framing && case.mode == LbMode::Faulty {
+            if framing && case.mode != LbMode::FlushFault {
                 props.push("C05".to_string());
             }
-            if conservation && case.mode == LbMode::Faulty {
+            if conservation && case.mode != LbMode::FlushFault {
                 props.push("C06".to_string());
             }
             v.props = props;
